@@ -1,4 +1,5 @@
 import Batteries.Tactic.Alias
+import GenlmModel.Proofs.CfgBytes
 import GenlmModel.Proofs.Wfsa2
 /-! # C17 — automaton→grammar and byte-level conversions preserve weights -/
 namespace Genlm.Props.C17
@@ -11,4 +12,8 @@ alias to_bytes := Genlm.toBytes_Pk
 alias to_bytes_not_encoding := Genlm.toBytes_Pk_not_encoding
 alias to_bytes_unique_decoding := Genlm.toBytes_Pk_unique
 alias to_bytes_epsfree := Genlm.toBytes_epsFree
+/-- grammar to bytes: the weight of a byte string is the total weight of its decodings (level by level, every symbol) -/
+alias cfg_to_bytes := Genlm.cfgToBytes_WN
+alias cfg_to_bytes_not_encoding := Genlm.cfgToBytes_WN_not_encoding
+alias cfg_to_bytes_prefix_free := Genlm.cfgToBytes_WN_prefixFree
 end Genlm.Props.C17
